@@ -78,6 +78,8 @@ def run(tier, seed, only=None):
         j.setdefault("feed", "derived" if k % 3 == 2 else "explicit")
         # YAML-loaded configurations: complete, or lean (without the entries the trainer guards as optional; derived crop size)
         j.setdefault("lean", (not j["structured"]) and (k % 2 == 0 or j["model"] == "centered_instance"))
+        # frames: the square asset, or a 256 x 384 cut of it (height != width); not for the media-file jobs
+        j.setdefault("wide", k % 2 == 0 and not j.get("media"))
     obs = run_jobs(jobs, shim.REPO, seed, workers=14, timeout=900)
     bad = [o for o in obs if o.get("machinery")]
     if bad:
@@ -96,6 +98,7 @@ def run(tier, seed, only=None):
     res.clause("runs_with_lean_yaml", sum(1 for o in obs if o["job"].get("lean")))
     res.clause("runs_with_derived_epoch_length", sum(1 for o in obs if o["job"].get("feed") == "derived"))
     res.clause("runs_with_default_head_sections", sum(1 for o in obs if o["job"].get("heads") == "default"))
+    res.clause("runs_on_non_square_frames", sum(1 for o in obs if o["job"].get("wide")))
     res.clause("runs_np_chunks", sum(1 for o in obs if o["job"]["fw"] != "torch_dataset"))
     res.coverage.update(evaluations=len(traces), distinct_nontrivial=len({str(sorted(o["job"].items())) for o in obs if len(o["states"]) >= 4}),
                         exhaustive=(tier == "thorough" and only is None),
